@@ -378,6 +378,9 @@ pub fn c17(run: &mut Run) -> Stats {
         ("(?<n>\\w+)=(?<x>\\d+)|(?<nx>--\\w+)", "", "n=1 --v m=2"),
         ("x*", "", "é"),
         ("(?=é)", "", "aéb"),
+        // a named group inside a lookbehind, left of another group (emitted right to left)
+        ("(?<=(?<n>[a-z]+)=(\\d+));", "", "ab=1;cd=22;"),
+        ("(?<=(?<n>a)(b))(?<x>c)?", "", "abc ab"),
     ];
     // all templates
     let mut templates: Vec<String> = vec![String::new()];
@@ -624,7 +627,7 @@ pub fn c18(run: &mut Run) -> Stats {
     let slen = if thorough { 4 } else { 3 };
     let alphabet: Vec<char> = "\\^$.|?*+()[]{}-/&,aAkſ1é😀\n Σθ".chars().collect();
     run.rule = format!(
-        "all strings s over {{14 syntax characters, - / & , a A k U+017F 1 é U+1F600 LF space U+03A3 U+03B8}} of length <= {} x all 24 flag sets ({{i,m,s}} x {{none,u,v}}) x haystacks built from s (s, s.s, x.s.x, every proper prefix, case-swapped s, empty, s with the last character dropped and doubled, s with each character replaced by NUL or x, s with each character replaced by every member of its case class); non-trivial = s is non-empty and occurs in the haystack",
+        "all strings s over {{14 syntax characters, - / & , a A k U+017F 1 é U+1F600 LF space U+03A3 U+03B8}} of length <= {} x all 24 flag sets ({{i,m,s}} x {{none,u,v}}) x haystacks built from s (s, s.s, x.s.x, every proper prefix, case-swapped s, empty, s with the last character dropped and doubled, s with each character replaced by NUL or x, s with each character replaced by every member of its case class); plus 55 long strings (caseless runs of 8..=40 characters alone, before / after one cased letter) with every single-position near miss; non-trivial = s is non-empty and occurs in the haystack",
         slen
     );
     run.assumptions = vec!["occurrence model: leftmost non-overlapping substring search on code points; under i, per-character equivalence from the oracle fold tables (C10's relation)".into()];
@@ -656,6 +659,18 @@ pub fn c18(run: &mut Run) -> Stats {
                 s.push('s')
             }
             flagsets.push(Flags::parse(&s));
+        }
+    }
+    // long strings (chunked literals, prefilters): caseless runs of 8..=40 characters, alone, after and before one
+    // cased letter; their haystacks are s, s with the cased letter in the other case, and s with every single
+    // position replaced
+    {
+        let run_of = |n: usize| -> String { (0..n).map(|i| "0123456789-:;= ".chars().nth(i % 15).unwrap()).collect() };
+        for n in [8usize, 9, 12, 15, 16, 17, 24, 31, 32, 33, 40] {
+            let r = run_of(n);
+            for s in [r.clone(), format!("{}x", r), format!("k{}", r), format!("id={};", r), format!("{}é", r)] {
+                strings.push(s.chars().collect());
+            }
         }
     }
     let known = run.known.clone();
@@ -715,9 +730,11 @@ pub fn c18(run: &mut Run) -> Stats {
                 hays.push(d.iter().collect::<String>() + &s);
                 hays.push(format!("{}{}", s, l));
             }
-            // near misses: s with one character replaced by NUL or by 'x', alone and embedded
+            // near misses: s with one character replaced by NUL or by 'x' (long strings: also by '9' and 'y'),
+            // alone and embedded
             for k in 0..sc.len() {
-                for r in ['\0', 'x'] {
+                let reps: &[char] = if sc.len() > 6 { &['\0', 'x', '9', 'y'] } else { &['\0', 'x'] };
+                for &r in reps {
                     let mut d = sc.clone();
                     d[k] = r;
                     let ds: String = d.iter().collect();
